@@ -573,6 +573,12 @@ static void DecodeGen(Word Index) {
         return;
     }
 
+    /* at most three operands */
+
+    if (!ChkArgCnt(0, 3)) {
+        return;
+    }
+
     for (ActArgCnt = 0; ActArgCnt <= ArgCnt; ActArgCnt++) {
         pArg[ActArgCnt] = &ArgStr[ActArgCnt];
     }
